@@ -231,7 +231,7 @@ def fam_mha(st, probe):
         sh = obs["shapes"]
         mask_c = "None" if obs["mask"][0] == "absent" else f"(Some {cshape(obs['mask'][1])})"
         observed = "None" if not mha else f"(Some ({cz(mha['num_heads'])}, {cbool(mha['expanded'])}))"
-        st.add_case("attn", f"CMha (mk_mha_in {cbool('past' in p)} {cbool(key_t)} {cbool(obs['key_format'] == 'BHSd')} {cshape(sh['query'])} {cshape(sh['q4'])} "
+        st.add_case("attn", f"CMha @mha_strict_mask@ (mk_mha_in {cbool('past' in p)} {cbool(key_t)} {cbool(obs['key_format'] == 'BHSd')} {cshape(sh['query'])} {cshape(sh['q4'])} "
                             f"{cshape(sh['key'])} {cshape(sh['value'])} {cshape(sh['past_key'])} {cshape(sh['past_value'])} {mask_c}) {observed}", (fam, p, obs))
         corr_n += 1
         if mha:
@@ -260,7 +260,9 @@ def fam_mha(st, probe):
         return c
     for mask in ([2, 1, 3, 1], [3, 1]):
         pp = dict(base, mask=mask)
-        probe(st, fam, mha_model(pp), plain, pp, finding="C19:mha:mask-last-dim-broadcast", cls=(fam, "finding", "mask-last-dim", len(mask)))
+        f_, _ = probe(st, fam, mha_model(pp), plain, pp, finding="C19:mha:mask-last-dim-broadcast", cls=(fam, "finding", "mask-last-dim", len(mask)))
+        if len(mask) == 4:
+            st.flags["mha_strict_mask"] = f_ is False        # the witness of C19_mha_mask_check_refuted decides the variant
     pp = dict(base, B=1, mask=[3, 1, 3, 3])
     probe(st, fam, mha_model(pp), plain, pp, finding="C19:mha:mask-batch-exceeds-query-batch", cls=(fam, "finding", "mask-batch"))
     for tgt in ([-1, 8], [0, -1, 4]):
@@ -561,7 +563,7 @@ def fam_gqa_rule(st, probe_unused):
         if "shapes" in obs and len(obs.get("il", [])) == 2:
             sh = obs["shapes"]
             observed = "None" if not gq else f"(Some ({cz(gq[0])}, {cz(gq[1])}, {cz(gq[2])}))"
-            st.add_case("attn", f"CGqa (mk_gqa_in {cshape(sh['query'])} {cshape(sh['key'])} {cshape(sh['value'])} (Some {cshape(sh['past_key'])}) (Some {cshape(sh['past_value'])}) "
+            st.add_case("attn", f"CGqa @gqa_head16@ (mk_gqa_in {cshape(sh['query'])} {cshape(sh['key'])} {cshape(sh['value'])} (Some {cshape(sh['past_key'])}) (Some {cshape(sh['past_value'])}) "
                                 f"{cshape(sh['query_BSHDh'])} {cshape(sh['key_BSHkvDh'])} {cz(obs['il'][0])} {cz(obs['il'][1])} false false {cbool(obs['mask_producer'])} "
                                 f"{cbool(variant not in ('mask-zero', 'mask-half'))}) {observed}", (fam, p, obs))
         if gq and not bad:
@@ -639,8 +641,10 @@ def fam_group_norm2(st, probe):
             tr = [x[2].get("perm") for x in find(m2, "Transpose")]
             if tr != [[0, 2, 3, 1], [0, 3, 1, 2]]:
                 ctx.tie_broken("correspondence", f"{fam}:layout", f"{p}: Transposes {tr}")
-        if finding is None:
-            st.add_case("gn", f"CGn (mk_gn_in {cbool(nw == 1.0)} {cbool(nb == 0.0)} {cz(groups)} {clist([N, C, Hh, W], cz)} {clist(wshape, cz)} {clist(bshape, cz)} "
+        if fired is not None and finding is not None:
+            st.flags["gn_affine_guard"] = not fired           # the witness of C19_gn_check_affine_refuted decides the variant
+        if True:
+            st.add_case("gn", f"CGn @gn_affine_guard@ (mk_gn_in {cbool(nw == 1.0)} {cbool(nb == 0.0)} {cz(groups)} {clist([N, C, Hh, W], cz)} {clist(wshape, cz)} {clist(bshape, cz)} "
                               f"(Some {clist(adjusted, cz)}) (Some {clist(orig, cz)})) {'None' if obs is None else '(Some ' + cz(obs) + ')'}", (fam, p, obs))
     st.structural_only.add("com.microsoft::GroupNorm (no CPU kernel: evaluated with a NumPy implementation of the documented operator)")
     if fired_n < (4 if ctx.tier == "quick" else 30):
